@@ -273,7 +273,7 @@ func ruleGateKeys(w *World, r *Report) {
 		a := newLocAnchors(w)
 		ro := gateSpec{Name: "IsReadOnly", FailWhen: "true", Idx: -1, IsGate: func(c *ssa.CallCommon) bool { return a.isLocMethod(c, "IsReadOnly") }}
 		g := newGateEngine(w, []gateSpec{ro}, func(in ssa.Instruction) (string, bool) {
-			if ret, ok := in.(*ssa.Return); ok && len(ret.Results) == 1 && isNilConst(ret.Results[0]) && in.Parent() == fn {
+			if ret, ok := in.(*ssa.Return); ok && len(ret.Results) == 1 && isNilConst(resolveSpill(ret.Results[0])) && in.Parent() == fn {
 				return "return nil", true
 			}
 			return "", false
